@@ -104,6 +104,9 @@ pub struct State {
     pub fs_switch: bool,
     /// every table/wal path removed, in order (C11 bookkeeping)
     pub removed_paths: Vec<PathBuf>,
+    /// if set: at every removal, the value of this clock, the path and the image right after it
+    pub removal_clock: Option<&'static std::sync::atomic::AtomicU64>,
+    pub removal_snaps: Vec<(u64, PathBuf, Image)>,
 }
 
 #[derive(Clone)]
@@ -606,6 +609,11 @@ impl FileSystem for VerifFs {
                 d.removed.store(true, Ordering::SeqCst);
                 st.removed_paths.push(path.to_path_buf());
                 st.record(FsOp::Remove { path: path.to_path_buf() });
+                if let Some(clock) = st.removal_clock {
+                    let img: Image = st.files.iter().map(|(p, d)| (p.clone(), lock(&d.bytes).clone())).collect();
+                    let t = clock.load(Ordering::SeqCst);
+                    st.removal_snaps.push((t, path.to_path_buf(), img));
+                }
                 Ok(())
             }
             None => Err(io::Error::new(
